@@ -4970,6 +4970,11 @@ func (c *BytecodeCompiler) compileInnerMethodCall(receiver ast.ExpressionNode, n
 	case "--":
 		c.compileDecrement(receiverType, location)
 	default:
+		if tailCall && c.additionalAbortChecks {
+			// a tail call reuses the frame and never reaches
+			// the abort check emitted before the return instruction
+			c.emit(location.EndPos.Line, bytecode.CHECK_ABORT)
+		}
 		c.compileCallMethod(
 			receiverType,
 			nameSym,
